@@ -301,6 +301,13 @@ func evaluate(srv *pvpeg.Server, pigeon, dir string, seed int64, i int, av pvpeg
 				names = append(names, []string{"Nope", "", "A", "x y"}[r.Intn(4)])
 			}
 		}
+		if allValid && r.Intn(3) == 0 {
+			// stray commas: empty names are skipped by main.go, the names after them still count
+			for k := 1 + r.Intn(2); k > 0; k-- {
+				at := r.Intn(len(names) + 1)
+				names = append(names[:at:at], append([]string{""}, names[at:]...)...)
+			}
+		}
 		if len(names) > 1 && r.Intn(2) == 0 {
 			// the flag may be repeated: every occurrence counts
 			for _, nm := range names {
